@@ -9,6 +9,8 @@ mod transformation;
 pub use adapt::DiagAdaptExpSettings;
 pub(crate) use adapt::DiagAdaptStrategy;
 pub use adapt::LowRankMassMatrixStrategy;
+#[cfg(nuts_rs_verif)]
+pub use adapt::verif_lowrank_estimate;
 pub(crate) use adapt::MassMatrixAdaptStrategy;
 pub(crate) use diagonal::DiagMassMatrix;
 pub use external::ExternalTransformation;
